@@ -9,7 +9,7 @@ SIG = 'Signalling.tla (one action per handled websocket message: join/leave/disc
 CLAIMS = {
  "C01": ("model_checking",
          "SeqMap.tla (packetmap's interval table as Layer I, the closed form of the property as Layer P) is checked exhaustively by TLC at small constants over every arrival/drop history inside the re-synchronisation window; executions of the real packetmap.Map and of the real rtpDownTrack.Write on TLC-simulated and boundary-biased histories (incl. >65536-packet runs) are validated step by step by TLC against the same spec at the real constants, the verdict coming from the monitor fed with logged outcomes only.",
-         "exhaustive only at M=16/W=2 (M=32/W=4 in the thorough tier); the real constants are covered by validated executions, not exhaustively; pion's transport is replaced by a recording write stream"),
+         "exhaustive only at M=16/W=2 (the thorough tier explores M=32/W=4 breadth-first for a fixed time budget of 30 min, not to completion); the real constants are covered by validated executions, not exhaustively; pion's transport is replaced by a recording write stream"),
  "C02": ("model_checking",
          "Forward.tla (Write + packetmap + RewritePacket's arithmetic) is checked exhaustively against the C02 monitor (changed-field set, marker rule, picture-id formula) for VP8-like streams under every whole-frame drop pattern; real Write executions on built-from-ground-truth VP8/VP9 packets (7/15-bit ids, CSRCs, all sizes) are parsed with pion's depacketisers, diffed, and validated by TLC at the real constants.",
          "byte diffing is an observation function in Go; picture-id clause judged on in-order histories only; pion's SSRC/PT rewriting is session-level and allowed"),
@@ -26,8 +26,8 @@ CLAIMS = {
          "Cache.tla's accounting part (RFC 3550 counters, 32-bit loss bitmap, the receive loop's NACK decision) is checked against N1-N4/S1-S3: steady streams exhaustively, lossy/late/restart histories breadth-first under a time budget; the faithful switches re-find the repaired findings F20 and F26; real Store/BitmapGet/Expect/GetStats/ToBitmap executions at the real constants are validated by TLC.",
          "API tier: the driver executes the receive loop's arithmetic as transcribed in the spec; end-to-end tier: a scripted pion publisher (gaps, late packets, duplicates, wrap, 1900 packets/s) feeds the real server and hooks at sendNACK / sendNACKs log what the cache holds at the instant a NACK goes upstream (Trace_Nack: N1-N4 on the real readLoop / nackWriter), on 7 streams per quick run"),
  "C10": ("model_checking",
-         "Group.tla (one action per critical section of group.go: add/reload+autoLockKick, admission, departure, SetLocked) is checked exhaustively against the admission monitor for 2 operators + 2 non-operators over every description and reload and all interleavings; the faithful switch re-finds the repaired F5 window; the real group package is driven sequentially (TLC-simulated + seeded operation sequences, real description files and reloads), by a forced schedule through the hooks, and by racing goroutines, all recorded in linearisation order by hooks numbered under Group.mu and validated by TLC.",
-         "fake group.Client values stand in for web clients; time-window edges are an hour away from now"),
+         "Group.tla (one action per critical section of group.go: add/reload+autoLockKick, admission, departure, SetLocked) is checked exhaustively against the admission monitor for 2 operators + 2 non-operators over every description and reload and all interleavings; the faithful switch re-finds the repaired F5 window; the real group package is driven sequentially (TLC-simulated + seeded operation sequences, real description files and reloads), by a forced schedule through the hooks, and by racing goroutines, all recorded in linearisation order by hooks numbered under Group.mu and validated by TLC; sequences include a definition file that is unreadable for a moment while members are present; SigMonitor carries a C10 clause and autolock behaviours (operators demoted at run time, the last one leaving, newcomers) run against the REAL server.",
+         "library tier: fake group.Client values stand in for web clients; time-window edges are an hour away from now; the real-server tier covers autolock only"),
  "C13": ("model_checking",
          "Queue.tla (unbounded.Channel, instruction-level) is checked exhaustively (exactly-once/in-order, no lost wake-up, liveness) and EVERY complete interleaving TLC enumerates (2548 for 2x2) is forced on the real Channel through the hook in Put and validated by TLC; Locks.tla (lock/guarded-access sequences of 10 lifecycle operations) is checked for deadlock and lockset discipline over every pair and triple, its faithful switches re-finding F4/F5/F8/F18 and two design switches (kicks under the group lock, live history buffer) showing the deadlock / race they would cause; on the real code the deadlock schedules are forced with gates + watchdog + goroutine dump (incl. the last operator leaving an autokick group with WHIP and recording members), and racing rounds (incl. history readers vs writers) run under the race detector.",
          "data races are decided by Go's race detector on executed rounds; Locks.tla is a hand transcription of the lock sequences (drift is only visible through the forced schedules and the race rounds)"),
@@ -48,7 +48,7 @@ CLAIMS = {
          "golang-jwt trusted; near-edge instants are 3 s away; RS256 not in the table"),
  "C17": ("model_checking", "AdminAPI.tla (the router of webserver/api.go as a decision table: 8 methods x 18 endpoint shapes x 13 credential kinds, with the scope invariants) is enumerated completely by TLC; every row is sent as a real HTTP request to the real server (child process, group files full of sentinel secrets, real token file) and Trace_Http checks the row's status class, that a refused or preflight request changed nothing on disk, that no response contains a sentinel password/hash/salt/key, and over seeded update sequences that every stored part a request does not address is unchanged.",
          "fixture content rather than arbitrary group content; sentinel detection is textual; JWT administrator tokens covered by C09 at library level"),
- "C18": ("model_checking", "Defs.tla (handler part: stat + checkPreconditions without lock; library part under groups.mu: re-read, compare, CreateTemp, encode+fsync, rename; lock-free readers; crash anywhere) is checked exhaustively for 3 editors up to 4 versions against X1/X1b/X3, the faithful switch re-finding the repaired F21; seeded optimistic-concurrency sequences (every If-Match/If-None-Match form with current and stale tags on groups, users, passwords, keys, wildcard user; 2-6 racing writers with one tag) and a crash at each of the five steps of rewriteDescriptionFile run against the real server, Trace_Http deciding from the observed (size, mtime) versions alone.",
+ "C18": ("model_checking", "Defs.tla (handler part: stat + checkPreconditions without lock; library part under groups.mu: re-read, compare, CreateTemp, encode+fsync, rename; lock-free readers; crash anywhere) is checked exhaustively for 3 editors up to 4 versions against X1/X1b/X3, the faithful switch re-finding the repaired F21; seeded optimistic-concurrency sequences (every If-Match/If-None-Match form with current and stale tags on groups, users, passwords, keys, wildcard user; 2-6 racing writers with one tag) a crash at each of the five steps of rewriteDescriptionFile (rewriting a group, a user, a password, and creating a group) and a write error / kill in the middle of a write (file-size limit of the server child: 1, 64, 700 bytes) run against the real server, Trace_Http deciding from the observed (size, mtime) versions alone.",
          "racing writers are scheduled by the runtime, not a controlled scheduler; process crashes only"),
  "C19": ("model_checking", "Paths.tla (path.Clean, validGroupName, validUsername, parseGroupName, getDescriptionFile's file name, the recordings delete target as operators over component sequences, against the property's closed form and 'resolution never climbs above the root') is checked by TLC on every name of up to 3 components over 7 component kinds, the faithful switch re-finding the repaired F22; the real validators, parser, description functions and openDiskFile run on every table row, hand-written escapes and seeded hostile strings inside a scratch tree with sentinels next to the configured directories (tree compared before/after every call), and raw HTTP traversal attempts on the static, group, API, recordings and delete-form routes plus websocket joins under bad names run against the real server with every directory digested after every request; Trace_Paths judges.",
          "Linux separator semantics; no symbolic links planted; recorder file names judged at openDiskFile"),
